@@ -526,6 +526,35 @@ for _K in (0, 1, 2, 3):
     _lookups(_K)
 
 
+@contract('C03', 'toc.lookups.growing', TOC_F,
+          clause='lookups agree at every moment of the download, not only at the end: after each added entry every entry added so far is found '
+                 'by index, by (group, name) and by complete name, although lookups (e.g. for a value notification) already happened while the '
+                 'table was shorter',
+          bounded='3 entries added one by one, all lookups after each addition; names of 2 characters; indices 0..65535')
+def lookups_growing(c):
+    toc = c.new(TOC + ':Toc')
+    c.let('toc', toc)
+    K = 3
+    for j in range(K):
+        c.str('g%d' % j, 2, lo=1, hi=255), c.str('n%d' % j, 2, lo=1, hi=255)
+        c.int('i%d' % j, 0, 65535)
+        c.require("all(ch != '.' for ch in g%d) and all(ch != '.' for ch in n%d)" % (j, j))
+        for h in range(j):
+            c.require('i%d != i%d and not (g%d == g%d and n%d == n%d)' % (j, h, j, h, j, h))
+    for j in range(K):
+        # a lookup of an entry that is not there yet (as a notification for a not-yet-downloaded entry causes)
+        c.call((toc, 'get_element_by_id'), c.get('i%d' % j))
+        c.ensure('not-yet-present-%d' % j, 'raised is None and result is None')
+        e = c.obj(LOG + ':LogTocElement', ident=c.get('i%d' % j), group=c.get('g%d' % j), name=c.get('n%d' % j))
+        c.let('e%d' % j, e)
+        c.call((toc, 'add_element'), e)
+        for h in range(j + 1):
+            c.call((toc, 'get_element_by_id'), c.get('i%d' % h))
+            c.ensure('by-index-%d-after-%d-entries' % (h, j + 1), 'raised is None and result is e%d' % h)
+            c.call((toc, 'get_element_by_complete_name'), c.snapshot('cn', "g%d + '.' + n%d" % (h, h)))
+            c.ensure('by-complete-name-%d-after-%d-entries' % (h, j + 1), 'raised is None and result is e%d' % h)
+
+
 # ------------------------------------------------------------------------------------------------ 6. cache hit
 
 @contract('C03', 'fetch.cache-hit', FETCH_F,
